@@ -126,6 +126,7 @@ type VC struct {
 	inTypeInv   bool
 	fromField   map[ssa.Value]string
 	hdrSrc      map[int]ast.Node
+	noAssume    map[int]bool // obligations (by index) that failed as support of another property: not assumed
 	bareLoops   []string // header texts of the loops without a contract
 	bareLoopAt  []int    // per entry of bareLoops: source line where the loop starts, 0 = nested in another loop
 	curIdx      int
@@ -312,7 +313,8 @@ func (vc *VC) embPtr(structType types.Type, fld int, base Term) Term {
 	vc.declareFun(inv, []string{"Int"}, "Int")
 	t := sx(fn, base)
 	k := vc.e.embKind(key)
-	vc.once(And(Eq(sx(inv, t), base), Eq(sx("rkind", t), IntLit(int64(k)))))
+	// (an interior pointer of an object allocated after the function was entered did not exist at entry either)
+	vc.once(And(Eq(sx(inv, t), base), Eq(sx("rkind", t), IntLit(int64(k))), Imp(Gt(base, "alloc!0"), Gt(t, "alloc!0"))))
 	return t
 }
 
